@@ -255,3 +255,47 @@ func TestGocvReplay(t *testing.T) {
 		},
 	})
 }
+
+// ---------------------------------------------------------------------------
+// driver: (*ProcessSet).WaitUntilComplete — close of the completion channel (C18).  The model has no input to speak
+// of: the obligation fails for any process set, so the replay waits twice on an empty one.
+
+func init() {
+	registerReplay(replayDriver{
+		name: "bpmn.ProcessSet.WaitUntilComplete twice",
+		match: func(ob *Oblig) bool {
+			return ob.Class == "chan-close-once" && strings.HasPrefix(ob.Func, "bpmn.(*ProcessSet).WaitUntilComplete")
+		},
+		build: func(ob *Oblig, m map[string]string) (string, string, bool) {
+			src := fmt.Sprintf(`package bpmn
+
+import (
+	"context"
+	"testing"
+	"time"
+
+	"github.com/olive-io/bpmn/schema"
+)
+
+// generated by gocv for obligation %s
+func TestGocvReplay(t *testing.T) {
+	defs := &schema.Definitions{}
+	ps, err := NewProcessSet(nil, nil, defs)
+	if err != nil {
+		t.Fatal(err)
+	}
+	ctx, cancel := context.WithTimeout(context.Background(), 2*time.Second)
+	defer cancel()
+	if err := ps.StartAll(ctx); err != nil {
+		t.Fatal(err)
+	}
+	// a second wait must not crash the program (the helper goroutine's panic is not recoverable here)
+	ps.WaitUntilComplete(ctx)
+	ps.WaitUntilComplete(ctx)
+	time.Sleep(200 * time.Millisecond)
+}
+`, ob.Name)
+			return ".", src, true
+		},
+	})
+}
